@@ -330,7 +330,16 @@ def run_shard(ctx):
             continue
         sheets = form.to_sheets()
         steps = []
-        if i % 3 == 0:
+        text_fmt = None
+        if i % 10 in (3, 8):
+            from .C12 import md_representable
+            if md_representable(sheets):
+                text_fmt = "csv" if i % 10 == 3 else "md"
+        if text_fmt:
+            # the text containers too (their readers drop blank rows and trim cells themselves, so only the re-spellings that do not touch those)
+            only = ["extra_sheet", "extra_sheet", "header_case", "header_alias", "sheet_case", "sheet_perm", "col_perm", "type_alias", "truth", "unknown_col"]
+            tsheets, done, shift = spelling.apply(sheets, rng, n=(1, 3), only=only, steps=steps)
+        elif i % 3 == 0:
             only = [names[(i // 3) % len(names)]]  # every transformation alone, round-robin
             tsheets, done, shift = spelling.apply(sheets, rng, n=(1, 1), only=only, steps=steps)
         else:
@@ -338,7 +347,8 @@ def run_shard(ctx):
         if not done:
             ctx.ctr("no_applicable_transformation")
             continue
-        fmt = "xlsx" if i % 5 == 0 else ("xls" if i % 10 == 7 else "dict")
+        fmt = text_fmt or ("xlsx" if i % 5 == 0 else ("xls" if i % 10 == 7 else "dict"))
+        ctx.ctr(f"container:{fmt}")
         compare_steps(ctx, form, sheets, steps, common.feature_sig(form), fmt)
         if i < 3:
             ctx.sample({"transformations": done, "row_shift": {k: list(v) for k, v in shift.items()},
